@@ -206,6 +206,7 @@ type Frame struct {
 	callResults map[string]ssa.Value
 	siteOrd map[ssa.Instruction]int
 	pendingAfter []ssa.Instruction
+	callArgVals map[string][]*Val
 }
 
 type deferredCall struct {
